@@ -189,6 +189,12 @@ func (r Condition) SetOperator(op Operator) Condition {
 }
 
 func (r *condition) setOperator(op Operator) {
+	if op == nil {
+		// a nil Operator is rejected; whatever
+		// was set previously remains in place.
+		return
+	}
+
 	if len(op.Context()) > 0 && len(op.String()) > 0 {
 		r.op = op
 	}
